@@ -3,6 +3,7 @@
 package c11
 
 import (
+	"cmp"
 	"fmt"
 	"math"
 	"math/rand/v2"
@@ -538,6 +539,31 @@ func TestSets(t *testing.T) {
 		}
 		if cl.Len() != len(vals) {
 			r.Violation(fmt.Sprintf("mapset-nan-clone:%v", vals), fmt.Sprintf("the Clone of MapSet[float64] of %v has Len %d after the origin was cleared", vals, cl.Len()), map[string]any{"nan_set": len(vals)})
+		}
+		// the sorted set orders with cmp.Compare, for which NaN is one value below all others: a member like
+		// any other (added once however often, found, deleted), at every set size
+		for _, n := range []int{0, 2, 15, 16, 17, 40} {
+			fsn := container.NewSortedSliceSet[float64]()
+			for i := 0; i < n; i++ {
+				fsn.Add(float64(i) / 2)
+			}
+			fsn.Add(math.NaN())
+			fsn.Add(math.NaN())
+			fsn.Add(-1)
+			vs := fsn.Values()
+			asc := true
+			for i := 1; i < len(vs); i++ {
+				asc = asc && cmp.Compare(vs[i-1], vs[i]) < 0
+			}
+			r.Eval(4)
+			if fsn.Len() != n+2 || !asc || !fsn.Has(math.NaN()) || len(vs) != n+2 {
+				r.Violation(fmt.Sprintf("sorted-nan:%d", n), fmt.Sprintf("SortedSliceSet[float64] of %d numbers after Add(NaN), Add(NaN), Add(-1): Len=%d (want %d), Values ascending under cmp.Compare=%v, Has(NaN)=%v, Values=%v", n, fsn.Len(), n+2, asc, fsn.Has(math.NaN()), vs[:min(len(vs), 6)]), map[string]any{"nan_set": n})
+				continue
+			}
+			fsn.Delete(math.NaN())
+			if fsn.Len() != n+1 || fsn.Has(math.NaN()) {
+				r.Violation(fmt.Sprintf("sorted-nan-del:%d", n), fmt.Sprintf("SortedSliceSet[float64] of %d numbers, -1 and NaN after Delete(NaN): Len=%d (want %d), Has(NaN)=%v", n, fsn.Len(), n+1, fsn.Has(math.NaN())), map[string]any{"nan_set": n})
+			}
 		}
 		ss := container.NewSortedSliceSet(1.5, 0.5)
 		ss.Add(math.Inf(-1))
